@@ -208,7 +208,7 @@ pub fn world_cached(spec: &WorldSpec) -> Option<Arc<World>> {
 pub fn world_strategy() -> impl Strategy<Value = WorldSpec> {
     (
         any::<u64>(),
-        prop::collection::vec(1u64..1000, 2..=5),
+        prop::collection::vec(100u64..1000, 2..=5),
         2u64..=4,
         0u64..=8,
         prop_oneof![3 => Just(1.0f64), 1 => Just(0.9f64)],
